@@ -1146,3 +1146,169 @@ _reg6d = register
 def register(R):  # noqa: F811
     _reg6d(R)
     register_cut_by_type(R)
+
+
+# =========================================================================== CutByFurcationOrder.__call__ (= cut_tree with the level rule)
+def register_order_call(R):
+    from pyvc.traverse_rule import Rule
+    from pyvc.values import Obj, fresh
+
+    K = _SUBTREE_KIT
+    nof, col, sel, list_view = K["nof"], K["col"], K["sel"], K["list_view"]
+    I, B = z3.IntSort(), z3.BoolSort()
+    TT = "swcgeom/transforms/tree.py"
+
+    def setup(S):
+        from swcgeom.transforms.tree import CutByFurcationOrder
+
+        t = K["raw_tree"](S)
+        G = Obj(GhostList, dict(at=SArr(z3.K(I, z3.IntVal(-1)), nof(t), "int", name="at")))  # position of a node in cut_tree's `removals`
+        return dict(self=S.obj(CutByFurcationOrder, max_furcation_order=S.int("kmax")), x=t, __ghost__=dict(G6=G))
+
+    G6 = lambda E: E.spec_extra["G6"]
+
+    def ghosts(E, ctx):
+        """ghost definitions by recursion over the (well-founded) parent relation, made once per path when the traversal starts:
+        LVL(x)  = number of furcation nodes on the way from the root's children down to x (the level the property speaks of),
+        CAR(x)  = the level the traversal CARRIES at x: cut_tree stops consulting the callback below a removed node and passes the
+                  removed ancestor's level on.   `x is a furcation` = more than one child (nkids of the traversal's child enumeration)."""
+        if "order-ghosts" not in E.spec_extra:
+            t = E.top_old["x"]
+            P, n = col(t, "pid").arr, nof(t)
+            kmax = to_z3(E.top_old["self"].fields["max_furcation_order"], "int")
+            LVL, CAR = z3.Function(fresh_name("LVL"), I, I), z3.Function(fresh_name("CAR"), I, I)
+            x = z3.Int(fresh_name("x"))
+            px = sel(P, x)
+            furc = z3.If(ctx.nkids(x) > 1, 1, 0)
+            E.assume(z3.ForAll([x], z3.Implies(z3.And(x >= 0, x < n), z3.If(px < 0, z3.And(LVL(x) == 0, CAR(x) == 0),
+                     z3.And(LVL(x) == LVL(px) + furc, CAR(x) == z3.If(CAR(px) >= kmax, CAR(px), CAR(px) + furc))))))
+            E.assumptions.add("ghost definition (well-founded recursion over the parent relation): LVL / CAR = furcation level and carried level of CutByFurcationOrder")
+            E.spec_extra["order-ghosts"] = (LVL, CAR, kmax)
+        return E.spec_extra["order-ghosts"]
+
+    def J(E, v, ENT, LEFT, ctx):
+        """cut_tree's `removals` lists exactly the entered nodes whose carried level reaches the order, each once (ghost inverse `at`)"""
+        LVL, CAR, kmax = ghosts(E, ctx)
+        A, ln = list_view(v["removals"])
+        at = G6(E).fields["at"].arr
+        a, x = z3.Int(fresh_name("a")), z3.Int(fresh_name("x"))
+        member = lambda q: z3.And(sel(ENT, q), CAR(q) >= kmax)
+        inl = lambda q: z3.And(q >= 0, q < ln)
+        return z3.And(ln >= 0,
+                      z3.ForAll([a], z3.Implies(inl(a), z3.And(ctx.R(sel(A, a)), member(sel(A, a)), sel(at, sel(A, a)) == a))),
+                      z3.ForAll([x], z3.Implies(z3.And(ctx.R(x), member(x)), z3.And(inl(sel(at, x)), sel(A, sel(at, x)) == x))))
+
+    def Qe(E, v, x, val, ctx):
+        LVL, CAR, kmax = ghosts(E, ctx)
+        if not (isinstance(val, tuple) and len(val) == 2):
+            return False
+        return z3.And(to_z3(val[0], "int") == CAR(x), to_z3(E.truth(val[1]), "bool") == (CAR(x) >= kmax))
+
+    def ghost_enter(E, v, x, ctx):
+        A, ln = list_view(v["removals"])
+        g = G6(E).fields["at"]
+        g.arr = z3.Store(g.arr, x, ln - 1)
+
+    def count_hint(E, v):
+        """enter step: the row count Node.is_furcation takes is > 1 exactly when the node has two children in the traversal's
+        enumeration (witnesses: the first two counted rows / the first two children)"""
+        ctx, x = E.ghost.get("last-traverse-ctx"), E.ghost.get("traverse-step-node")
+        pre = "CutByFurcationOrder.__call__/step/"
+        for f, pos, mask in E.ghost.get("cnt-rs6-all", []):
+            if ("cnt-linked", f.name()) in E.ghost:
+                continue
+            E.ghost[("cnt-linked", f.name())] = True
+            n = mask.nz()
+            p0, p1 = pos(0), pos(1)
+            k0, k1 = ctx.kid(x, 0), ctx.kid(x, 1)
+            m_ = lambda q: to_z3(mask.get(q), "bool")
+            E.prove(pre + "two-counted-rows-are-two-children", z3.Implies(f(n) > 1, z3.And(0 <= p0, p0 < p1, p1 < n, m_(p0), m_(p1), sel(ctx.P, p0) == x, sel(ctx.P, p1) == x)), "annotation")
+            E.prove(pre + "two-counted-rows-mean-two-children-in-the-enumeration", z3.Implies(f(n) > 1, ctx.nkids(x) > 1), "annotation")
+            E.prove(pre + "two-children-are-two-counted-rows", z3.Implies(ctx.nkids(x) > 1, z3.And(0 <= k0, k0 < k1, k1 < n, m_(k0), m_(k1), f(k0 + 1) >= 1, f(k1) >= 1, f(k1 + 1) >= 2)), "annotation")
+            E.prove(pre + "two-children-mean-a-count-above-one", z3.Implies(ctx.nkids(x) > 1, f(n) > 1), "annotation")
+
+    def furc_hint(E, v):
+        ctx = E.ghost.get("last-traverse-ctx")
+        c = result_of(E)
+        if ctx is None or c is None:
+            return
+        t = c["swc_like"]
+        P, n = col(t, "pid").arr, nof(t)
+        x, a, b = z3.Int(fresh_name("x")), z3.Int(fresh_name("a")), z3.Int(fresh_name("b"))
+        Rg = lambda q: z3.And(q >= 0, q < n)
+        k0, k1 = ctx.kid(x, 0), ctx.kid(x, 1)
+        pre = "CutByFurcationOrder.__call__/step/"
+        E.prove(pre + "the-first-two-children-are-two-distinct-rows", z3.ForAll([x], z3.Implies(z3.And(Rg(x), ctx.nkids(x) > 1), z3.And(Rg(k0), Rg(k1), k0 != k1, sel(P, k0) == x, sel(P, k1) == x))), "annotation")
+        E.prove(pre + "two-distinct-rows-with-one-parent-take-two-places-among-its-children",
+                z3.ForAll([a, b], z3.Implies(z3.And(Rg(a), Rg(b), a != b, sel(P, a) == sel(P, b), sel(P, a) >= 0), ctx.nkids(sel(P, a)) > 1)), "annotation")
+
+    def result_of(E):
+        calls = [kw for nm, kw in E.call_log if nm == "to_subtree"]
+        return calls[0] if len(calls) == 1 else None
+
+    def post(which):
+        def f(E, v, o):
+            res, t = v["result"], o["x"]
+            c = result_of(E)
+            if c is None or res is not c["__result__"] or c["swc_like"] is not v["x"] or c["out_mapping"] is not None or "order-ghosts" not in E.spec_extra:
+                return False
+            gh = K["sub_ghost"](E, res)
+            mapping, kappa, rho, Rm = gh
+            LVL, CAR, kmax = E.spec_extra["order-ghosts"]
+            ctx = E.ghost["last-traverse-ctx"]
+            P, n = col(t, "pid").arr, nof(t)
+            x, a, b = z3.Int(fresh_name("x")), z3.Int(fresh_name("a")), z3.Int(fresh_name("b"))
+            Rg = lambda q: z3.And(q >= 0, q < n)
+            if which == "a-furcation-is-a-node-that-two-distinct-rows-name-as-parent":
+                return z3.ForAll([x], z3.Implies(Rg(x), (ctx.nkids(x) > 1) == z3.Exists([a, b], z3.And(Rg(a), Rg(b), a != b, sel(P, a) == x, sel(P, b) == x))))
+            if which == "removed-iff-the-furcation-level-reaches-the-order":
+                return z3.ForAll([x], z3.Implies(Rg(x), Rm(x) == (LVL(x) >= kmax)))
+            return K["subtree_clause"](E, which, res, t, gh)
+
+        return f
+
+    def induction_hint(E, v):
+        c = result_of(E)
+        if c is None or "order-ghosts" not in E.spec_extra:
+            return
+        t = c["swc_like"]
+        mapping, kappa, rho, Rm = K["sub_ghost"](E, c["__result__"])
+        LVL, CAR, kmax = E.spec_extra["order-ghosts"]
+        P, n = col(t, "pid").arr, nof(t)
+        A, ln = list_view(c["removals"])
+        x, j = z3.Int(fresh_name("x")), z3.Int(fresh_name("j"))
+        Rg = lambda q: z3.And(q >= 0, q < n)
+        pre = "CutByFurcationOrder.__call__/step/"
+        E.prove(pre + "listed-iff-carried-level-reaches-the-order", z3.ForAll([x], z3.Implies(Rg(x), z3.Exists([j], z3.And(j >= 0, j < ln, sel(A, j) == x)) == (CAR(x) >= kmax))), "annotation")
+        # induction 1: the closure to_subtree computes adds nothing (the carried level never drops below the order again)
+        P1 = lambda q: Rm(q) == (CAR(q) >= kmax)
+        # induction 2: the carried level is the furcation level while below the order, and both are at or above it together
+        P2 = lambda q: z3.And(z3.Implies(CAR(q) < kmax, CAR(q) == LVL(q)), z3.Implies(CAR(q) >= kmax, LVL(q) >= kmax))
+        for nm, Pq in (("closure-is-carried-level-at-or-above-the-order", P1), ("carried-level-agrees-with-the-furcation-level", P2)):
+            base = Pq(z3.IntVal(0))
+            step = z3.ForAll([x], z3.Implies(z3.And(Rg(x), x != 0, Pq(sel(P, x))), Pq(x)))
+            E.prove(pre + nm + "/at-the-root", base, "annotation")
+            E.prove(pre + nm + "/below-an-agreeing-parent", step, "annotation")
+            E.assume(z3.Implies(z3.And(base, step), z3.ForAll([x], z3.Implies(Rg(x), Pq(x)))))
+        E.assumptions.add("assumed-lemma:tree_induction (depth witness) instantiated twice in CutByFurcationOrder.__call__: closure == carried level >= order; carried level vs furcation level")
+
+    POSTS = ["a-furcation-is-a-node-that-two-distinct-rows-name-as-parent", "removed-iff-the-furcation-level-reaches-the-order",
+             "survivors-are-exactly-the-nodes-outside-the-closure-in-order", "survivors-keep-every-attribute",
+             "ids-are-positions-and-parent-relation-kept", "result-shares-no-storage-with-the-input"]
+    R.add(f"{TT}:CutByFurcationOrder.__call__", prop="C06", setup=setup,
+          requires=[K["wf_clause"](w, "x") for w in K["WF"]],
+          ensures=[(nm, post(nm)) for nm in POSTS],
+          options=dict(traverse_rule=Rule(J, Qe=Qe, modifies=[("removals", "int"), G6], enter_kind=lambda E: (fresh("int", "plevel"), fresh("bool", "premoved")), ghost_enter=ghost_enter),
+                       count_model="rank-select",
+                       hints={"enter/invariant-preserved": count_hint, "post/a-furcation-is-a-node-that-two-distinct-rows-name-as-parent": furc_hint,
+                              "post/removed-iff-the-furcation-level-reaches-the-order": induction_hint}),
+          notes="cut_tree and the callback _enter are interpreted from source (inlined) under the traverse rule; to_subtree through its proved contract; "
+                "level(root) = 0, level(x) = level(parent) + [x has more than one child]; removed iff level >= max_furcation_order")
+
+
+_reg6e = register
+
+
+def register(R):  # noqa: F811
+    _reg6e(R)
+    register_order_call(R)
